@@ -11,13 +11,13 @@
 package mcpx
 
 import (
-	"math"
+	"bufio"
 	"context"
 	"encoding/json"
-	"bufio"
 	"errors"
 	"fmt"
 	"io"
+	"math"
 	"strings"
 	"sync"
 	"testing"
@@ -687,7 +687,6 @@ func decideC01(c *vh.Case, spec c01Spec) {
 }
 
 var _ = testing.Short
-
 
 // runC01Wire drives a real ClientSession over the SDK's own ndjson connection
 // (IOTransport on pipes, protocol 2025-03-26) against a raw peer that answers
